@@ -13,6 +13,12 @@ CHECKS = {
 }
 CHECKS.update({
  # NEW-ENTRIES-HERE
+ "C03": (True, "exploration", "bounded-exhaustive enumeration of (schema, datum, every legal serialisation, file-block partition, codec, compatible target) on reference-written files",
+         "Files are produced by an independent reference writer whose choice-driven encoder enumerates EVERY legal serialisation of a datum (all block splits of arrays/maps, with and without byte sizes, null in either union position); every schema of depth <=2 (3 thorough), every datum of a bounded alphabet and every compatible Go target (pointer indirection, integer/float width, wrappers) are crossed; multi-record files cover every partition into file blocks and the three codecs. Values must equal the reference mapping; an integer that does not fit must yield an error and no callback.",
+         "Depth and collection-size bounds; quick caps encodings per datum at 64 (reported); floats only where exactly representable.", "DESIGN.md §4 C03"),
+ "C04": (True, "exploration", "bounded-exhaustive enumeration of projections (field subsets x permutations x added fields) over reference-written files, plus Skip-vs-Read consumption equality on every legal encoding",
+         "Codec level: for every schema node and every legal serialisation, the bytes consumed by Read, by the record skip path and by Codec.Skip must equal the reference decoder's. File level: for every ordered pair of an 18-schema pool (incl. size-prefixed multi-block collections, unions, fixed, nested records) every projection of the target struct is read and the remaining fields compared with the reference mapping; a mis-sized skip also trips the block's sync check.",
+         "Pool of 18 field schemas, 2 data fields + sentinel per record, two nesting levels.", "DESIGN.md §4 C04"),
  "C13": (True, "exploration", "bounded-exhaustive enumeration of (caller schema, covering Go type, value) triples; reference decoder as oracle for Write, reference mapping for Read",
          "Every schema of nesting depth <=2 (3 thorough) over the supported leaves (incl. logical date/timestamps and null in either union position) is paired with every compatible Go field type (integer and float widths, pointers, null.* wrappers, time.Time) and every value of a bounded alphabet; when Schema.Codec builds, the bytes Write produces must decode under the reference decoder, with nothing left over, to the datum the value denotes, and Read of those bytes must return the value. 17k distinct triples in the quick tier.",
          "Only null+one-type unions are written; depth bound; times under long schemas restricted to the int64-nanosecond range.", "DESIGN.md §4 C13"),
